@@ -336,12 +336,12 @@ P("C15", ["LC.Props.C15"],
   "register_distinct / register_duplicate. tar, gzip and gob are assumed to round-trip.",
   ["tar/gzip/gob round-trip", "DiffSpec.noDeadline"], trusted=V1_TB)
 
-P("C16", ["LC.Props.C16", "LC.Props.C13"],
+P("C16", ["LC.Props.C16", "LC.Props.C16Complete", "LC.Props.C13"],
   [rootrun("serializer", "serializer", "overlay/serializer/zz_verif_test.go", "TestVerifC16", timeout=1800, timeout_thorough=14000)],
   "License.NearestMatch on the shipped license files x presentation variants (plain, upper, lower, re-flowed, wide spaces, // # * "
   "decoration): canonical name, confidence >= 0.8 (quick: 8 seeded files x 4 variants; thorough: all 178 x 8); MultipleMatch on "
   "noisy texts never returns a confidence below the threshold. distinct = (file, variant); non-trivial = all",
-  "multiple_within_threshold / multiple_from_input / multiple_nodup prove the threshold clause for every input; nearest_exact "
+  "multiple_within_threshold / multiple_from_input / multiple_nodup prove the threshold clause for every input, multiple_complete / multiple_exact that no qualifying candidate is dropped; nearest_exact "
   "(C13) the exact-text clause. The first sentence of the property is a finite statement about 178 files and is established by "
   "ENUMERATION on the real classifier (thorough tier: exhaustive), labelled as such.",
   ["normaliser outputs are not modelled"], trusted=V1_TB)
